@@ -290,14 +290,16 @@ Proof.
   rewrite drop_while_none; [apply rev_involutive|]. apply Forall_rev. exact H.
 Qed.
 
-(* the conversion applied to  sign ++ integer digits ++ optional fraction *)
-Lemma parse_number_form : forall chk neg ip fp, ip <> [] -> digit_text ip -> digit_text fp ->
-  parse_number_with chk (sign_text neg ++ ip ++ frac_text fp)
+(* the conversion applied to  sign ++ integer digits ++ optional fraction : nothing to trim, the regular expression
+   accepts, NewFromString yields the digits with the fraction length as negative exponent *)
+Lemma number_form_parts : forall chk neg ip fp, ip <> [] -> digit_text ip -> digit_text fp ->
+  let s := sign_text neg ++ ip ++ frac_text fp in
+  trim_space s = s /\ decimal_regexp s = true /  new_from_string_with chk s
   = if chk (- Z.of_nat (length fp))%Z
     then Some (Dec (signed neg (undigits (ip ++ fp))) (- Z.of_nat (length fp)))
     else None.
 Proof.
-  intros chk neg ip fp Hne Hip Hfp.
+  intros chk neg ip fp Hne Hip Hfp. cbv zeta.
   destruct (sign_text_props neg) as (S1 & S2 & S3).
   destruct (frac_text_props fp Hfp) as (F1 & F3).
   assert (I1 : Forall (fun c => is_space c = false) ip)
@@ -308,13 +310,12 @@ Proof.
     by (eapply digit_text_weaken; [|exact Hip]; intros x Hx; apply (digit_props x Hx)).
   assert (P2 : Forall (fun c => N.eqb 46 c = false) fp)
     by (eapply digit_text_weaken; [|exact Hfp]; intros x Hx; apply (digit_props x Hx)).
-  unfold parse_number_with.
-  rewrite trim_space_id.
-  2:{ destruct neg; cbn [sign_text app]; [discriminate|]. destruct ip; [contradiction|discriminate]. }
-  2:{ apply Forall_app; split; [exact S1|]. apply Forall_app; split; assumption. }
-  (* the regular expression *)
-  assert (Hre : decimal_regexp (sign_text neg ++ ip ++ frac_text fp) = true).
-  { unfold decimal_regexp.
+  split; [|split].
+  - apply trim_space_id.
+    + destruct neg; cbn [sign_text app]; [discriminate|]. destruct ip; [contradiction|discriminate].
+    + apply Forall_app; split; [exact S1|]. apply Forall_app; split; assumption.
+  - (* the regular expression *)
+    unfold decimal_regexp.
     assert (Hstrip : strip_minus (sign_text neg ++ ip ++ frac_text fp) = ip ++ frac_text fp).
     { unfold strip_minus. destruct neg; cbn [sign_text app]; [reflexivity|].
       destruct ip as [|c r]; [contradiction|]. inversion Hip; subst.
@@ -323,32 +324,51 @@ Proof.
       destruct (N.eq_dec (N.pos p) 45) as [E|E]; [contradiction|]. clear - E.
       repeat (destruct p as [p|p|]; try (exfalso; apply E; reflexivity); try reflexivity). }
     rewrite Hstrip. cbv zeta. rewrite span_digits.
-    - destruct fp as [|c r]; cbn [frac_text].
-      + destruct ip; [contradiction|reflexivity].
-      + cbn [negb andb]. apply all_digits_iff. exact Hfp.
-    - exact Hip.
-    - destruct fp; cbn [frac_text]; [exact I|reflexivity]. }
-  rewrite Hre. unfold new_from_string_with.
-  rewrite split_at_none.
-  2:{ apply Forall_app; split; [exact S3|]. apply Forall_app; split; assumption. }
-  destruct fp as [|c r].
-  - (* no fraction *)
-    cbn [frac_text length]. rewrite !app_nil_r.
-    rewrite count_none by (apply Forall_app; split; assumption).
-    change (1 <? 0)%nat with false. cbv iota.
-    rewrite split_at_none by (apply Forall_app; split; assumption).
-    rewrite parse_signed_form by assumption. reflexivity.
-  - set (fp := c :: r) in *. cbn [frac_text]. change (frac_text fp) with (46%N :: fp) in *.
-    assert (Hcount : count 46 (sign_text neg ++ ip ++ 46%N :: fp) = 1%nat).
-    { change (46%N :: fp) with ([46%N] ++ fp). rewrite !count_app.
-      rewrite (count_none 46 fp P2), (count_none 46 ip I2), (count_none 46 _ S2). reflexivity. }
-    unfold fp at 1. cbv iota. fold fp.
-    rewrite Hcount. change (1 <? 1)%nat with false. cbv iota.
-    rewrite app_assoc, split_at_first; [|apply Forall_app; split; assumption|reflexivity].
-    rewrite <- app_assoc, parse_signed_form.
-    + rewrite Z.sub_0_l. reflexivity.
-    + destruct ip; [contradiction|discriminate].
-    + apply Forall_app; split; assumption.
+    + destruct fp as [|c r]; cbn [frac_text].
+      * destruct ip; [contradiction|reflexivity].
+      * cbn [negb andb]. apply all_digits_iff. exact Hfp.
+    + exact Hip.
+    + destruct fp; cbn [frac_text]; [exact I|reflexivity].
+  - unfold new_from_string_with.
+    rewrite split_at_none.
+    2:{ apply Forall_app; split; [exact S3|]. apply Forall_app; split; assumption. }
+    destruct fp as [|c r].
+    + (* no fraction *)
+      cbn [frac_text length]. rewrite !app_nil_r.
+      rewrite count_none by (apply Forall_app; split; assumption).
+      change (1 <? 0)%nat with false. cbv iota.
+      rewrite split_at_none by (apply Forall_app; split; assumption).
+      rewrite parse_signed_form by assumption. reflexivity.
+    + set (fp := c :: r) in *. cbn [frac_text]. change (frac_text fp) with (46%N :: fp) in *.
+      assert (Hcount : count 46 (sign_text neg ++ ip ++ 46%N :: fp) = 1%nat).
+      { change (46%N :: fp) with ([46%N] ++ fp). rewrite !count_app.
+        rewrite (count_none 46 fp P2), (count_none 46 ip I2), (count_none 46 _ S2). reflexivity. }
+      unfold fp at 1. cbv iota. fold fp.
+      rewrite Hcount. change (1 <? 1)%nat with false. cbv iota.
+      rewrite app_assoc, split_at_first; [|apply Forall_app; split; assumption|reflexivity].
+      rewrite <- app_assoc, parse_signed_form.
+      * rewrite Z.sub_0_l. reflexivity.
+      * destruct ip; [contradiction|discriminate].
+      * apply Forall_app; split; assumption.
+Qed.
+
+Lemma parse_number_form : forall chk neg ip fp, ip <> [] -> digit_text ip -> digit_text fp ->
+  parse_number_with chk (sign_text neg ++ ip ++ frac_text fp)
+  = if chk (- Z.of_nat (length fp))%Z
+    then Some (Dec (signed neg (undigits (ip ++ fp))) (- Z.of_nat (length fp)))
+    else None.
+Proof.
+  intros chk neg ip fp Hne Hip Hfp. destruct (number_form_parts chk neg ip fp Hne Hip Hfp) as (T & R & P).
+  unfold parse_number_with. rewrite T, R. exact P.
+Qed.
+
+(* decimal.NewFromString alone (what parse_json uses) on a rendering *)
+Lemma new_from_string_render : forall chk d, exists d',
+  dec_eq d' d /\ (Z.min (dexp d) 0 <= dexp d' <= 0)%Z /  new_from_string_with chk (render d) = if chk (dexp d') then Some d' else None.
+Proof.
+  intros chk d. destruct (render_form d) as (neg & ip & fp & Hr & Hne & Hip & Hfp & Heq & Hb).
+  exists (Dec (signed neg (undigits (ip ++ fp))) (- Z.of_nat (length fp))). cbn [dexp].
+  split; [exact Heq|]. split; [lia|]. rewrite Hr. apply (number_form_parts chk neg ip fp Hne Hip Hfp).
 Qed.
 
 (* ------------------------------------------------------------------------------------------------ *)
